@@ -1073,6 +1073,8 @@ pub proof fn lemma_subrange_starts(bs: Seq<u8>, o: int, e: int)
 //@   >>>
 //@   body_start <<<
     hide(token_shape); hide(ws_end); hide(cmt_end); hide(run_end); hide(sep_at); hide(sep_end); hide(cmt_next); hide(sym_at); hide(ws_ascii_end);
+//@   >>>
+//@   before "either!(" <<<
     proof {
         let bs = bytes_of(input); let o = off_of(input);
         lemma_first_bytes(bs, o);
@@ -1095,6 +1097,8 @@ pub proof fn lemma_subrange_starts(bs: Seq<u8>, o: int, e: int)
 //@   >>>
 //@   body_start <<<
     hide(token_shape); hide(ws_end); hide(cmt_end); hide(run_end); hide(sep_at); hide(sep_end); hide(cmt_next); hide(sym_at); hide(ws_ascii_end);
+//@   >>>
+//@   before "either!(" <<<
     proof { lemma_first_bytes(bytes_of(input), off_of(input)); }
 //@   >>>
 //@   mutant eq_before_eqeq "eqeqtok, notequaltok," => "equaltok, eqeqtok, notequaltok," expect token__longest
